@@ -1,5 +1,3 @@
-//verif:v2only (root-module instantiation pending: API differences)
-
 package codecprops
 
 // C06 - required-field accounting and unknown-field tolerance when decoding.
